@@ -58,7 +58,8 @@ FASTOR_INLINE void assign ##ASSIGN_TYPE (AbstractTensor<Derived,DIM> &dst, const
         assign ##OP_ASSIGN_TYPE (dst.self(), src.rhs().self());\
     }\
     else{\
-        const Derived tmp(dst.self());\
+        /* the right operand reads dst: evaluate it (not just dst) before dst is modified */\
+        const typename TRhs::result_type tmp(src.rhs().self());\
         assign ##ASSIGN_TYPE (dst.self(), src.lhs().self());\
         assign ##OP_ASSIGN_TYPE (dst.self(), tmp);\
     }\
